@@ -1,8 +1,7 @@
-(* C14: (a) the one remaining class hypothesis cannot be dropped: a concrete query of class 13
-   (the witness of known_findings.d/C14.json, re-run on the real Database by every check) on
-   which the faithful implementation model contradicts the reference; (b) the former witnesses of
-   classes 1..12 (defects repaired in /repo) are now computed correctly by the model;
-   (c) non-vacuity examples.  All by computation. *)
+(* C14: (a) the witnesses of the thirteen findings repaired in /repo (known_findings.d/C14.json,
+   status "fixed"; re-run on the real Database by every check) are computed correctly by the
+   model; (b) non-vacuity examples.  All by computation.  (File name kept for history: it used to
+   hold the refutations of the finding classes.) *)
 From Coq Require Import ZArith List Bool.
 From TV Require Import Model.SqlSpec Model.PredImpl Model.PredClass.
 Import ListNotations.
@@ -15,9 +14,6 @@ Definition T3 : table :=
     [VInt 3; VNull; VNull; VNull] ].
 Definition c1_eq_1 : expr := ECmp CEq (ECol 1) (ELit (VInt 1)).
 
-Definition where_wrong (sty k : Z) (e : expr) (t : table) : Prop :=
-  cls_where sty e t = k /\ defined_on e t = true /\
-  model_where (parsed sty e) t <> MOut (QRows (spec_rows e t)).
 Definition where_right (sty : Z) (e : expr) (t : table) : Prop :=
   cls_where sty e t = 0 /\ defined_on e t = true /\
   model_where (parsed sty e) t = MOut (QRows (spec_rows e t)).
@@ -25,14 +21,11 @@ Definition select_right (sty : Z) (e : expr) (t : table) : Prop :=
   cls_select sty e t = 0 /\ defined_on e t = true /\
   model_select (parsed sty e) t = MOut (QVals (spec_vals e t)).
 
-(* 13: t(id, c1, c2) = (1, 5, NULL), (2, 5, 1);  c1 NOT BETWEEN (c2 + 1) AND 0 is TRUE on both rows
-   (5 > 0), the implementation drops row 1 *)
+(* 13: t(id, c1, c2) = (1, 5, NULL), (2, 5, 1);  c1 NOT BETWEEN (c2 + 1) AND 0 is TRUE on both rows *)
 Definition T13 : table := [[VInt 1; VInt 5; VNull]; [VInt 2; VInt 5; VInt 1]].
 Definition e13 : expr := EBetween true (ECol 1) (EArith AAdd (ECol 2) (ELit (VInt 1))) (ELit (VInt 0)).
-Lemma class13_refuted : where_wrong 0 13 e13 T13.
-Proof. vm_compute. repeat split; discriminate. Qed.
 
-(* the witnesses of the repaired findings 1..12 *)
+(* the witnesses of the repaired findings 1..13 *)
 Lemma repaired_witnesses :
   where_right 0 (ENot c1_eq_1) T3 /\
   where_right 0 (ECmp CEq (ECol 1) (ELit VNull)) T3 /\
@@ -48,7 +41,8 @@ Lemma repaired_witnesses :
     [[VInt 1; VFloat 4352464011485697175]; [VInt 2; VFloat 0]] /\
   where_right 0 (ECmp CGt (ECol 1) (ELit (VInt (-9223372036854775808))))
     [[VInt 1; VInt 0]; [VInt 2; VInt (-5)]] /\
-  where_right 1 (ENot c1_eq_1) T3.
+  where_right 1 (ENot c1_eq_1) T3 /\
+  where_right 0 e13 T13 /\ spec_rows e13 T13 = [1; 1].
 Proof. vm_compute. repeat split. Qed.
 
 (* non-vacuity of the positive theorems: queries over NULLs, with NOT and negated forms, on which
